@@ -23,8 +23,12 @@ def scenario_script(sc, wd, idx, fmt):
               "dump 0 in full",
               "run 0 %d %d %g %g %g" % (sc["threads"], sc["type"], sc["gpo"], sc["gpe"], sc["tgpe"]),
               "dump 0 out full",
-              "write 0 %s %s" % (fmt, out),
-              "free 0"]
+              "write 0 %s %s" % (fmt, out)]
+    if sc.get("allfmt"):
+        for f2 in ("fasta", "msf", "clu"):
+            if f2 != fmt:
+                lines.append("write 0 %s %s" % (f2, os.path.join(wd, "out_%d.%s" % (idx, f2))))
+    lines.append("free 0")
     return lines
 
 
@@ -74,6 +78,35 @@ def make_scenarios(rng, tier):
                 for c in allw[:6]:
                     scs.append(dict(id="x3_%d" % k, kind="dna", seqs=[a, b, c], names=["p", "q", "r"], type=2, gpo=-1.0, gpe=-1.0, tgpe=-1.0, threads=2))
                     k += 1
+    # widths at and around the 60-column block of the writers: substitutions only, so the alignment width is the sequence length
+    for L in ([59, 60, 61, 120, 180] if tier == "quick" else [1, 2, 59, 60, 61, 119, 120, 121, 179, 180, 181, 240, 600]):
+        for kind in (["dna", "protein"] if tier != "quick" else ["dna" if L % 120 else "protein"]):
+            alpha = gen.DNA if kind == "dna" else "DEFHIKLMPQRSVWY"
+            seqs = gen.family(rng, 4, L, alpha, sub=0.1, indel=0.0)
+            scs.append(dict(id="w%d%s" % (L, kind[0]), kind=kind, seqs=seqs, names=gen.names(rng, 4, "wild"), type=5, gpo=-1.0, gpe=-1.0, tgpe=-1.0,
+                            threads=2, allfmt=True))
+    # groups of 64 and more sequences followed merge by merge (full arrays)
+    for j, (n, L) in enumerate([(70, 40), (100, 30)] if tier == "quick" else [(66, 60), (70, 40), (100, 50), (130, 40), (200, 25), (64, 80)]):
+        kind = ["protein", "dna"][j % 2]
+        alpha = gen.AA if kind == "protein" else gen.DNA
+        # members with long deletions (long gap runs inside the finished group) ...
+        anc = gen.rand_seq(rng, alpha, L)
+        seqs = []
+        for _ in range(n - 1):
+            t = gen.mutate(rng, anc, alpha, 0.08, 0.0)
+            if rng.random() < 0.7:
+                a = rng.randrange(2, max(3, L - 14))
+                t = t[:a] + t[a + rng.randint(6, 12):]
+            seqs.append(t)
+        # ... and one sequence with many short insertions, which joins last and opens several gap columns inside those runs
+        t = anc
+        for _ in range(L // 3):
+            a = rng.randrange(1, len(t))
+            t = t[:a] + gen.rand_seq(rng, alpha, rng.randint(1, 2)) + t[a:]
+        seqs.append(t)
+        if kind == "protein":
+            seqs = [x + "LKEF" for x in seqs]
+        scs.append(dict(id="grp%d" % j, kind=kind, seqs=seqs, names=gen.names(rng, n), type=5, gpo=-1.0, gpe=-1.0, tgpe=-1.0, threads=[4, 1][j % 2], level=3, solo=True))
     # larger runs: digests only (end-state invariants)
     big = [(40, 150), (110, 60), (130, 40)] if tier == "quick" else [(40, 300), (110, 200), (250, 120), (600, 60), (1500, 30), (12, 1200), (4, 3000)]
     for j, (n, L) in enumerate(big):
@@ -104,8 +137,8 @@ def run(tier, seed, which="C01"):
     fmts = ["fasta", "msf", "clu"]
     batches = []
     per = 12
-    small = [s for s in scs if s.get("level", 3) == 3]
-    bigs = [s for s in scs if s.get("level", 3) != 3]
+    small = [s for s in scs if s.get("level", 3) == 3 and not s.get("solo")]
+    bigs = [s for s in scs if s.get("level", 3) != 3 or s.get("solo")]
     for i in range(0, len(small), per):
         batches.append(small[i:i + per])
     for s in bigs:
